@@ -119,9 +119,9 @@ def run(run):
         for n in r2.get("nodes", []):
             cnt[n["type"]] = cnt.get(n["type"], 0) + 1
         names = sorted(cnt)
-        if run.depth != "quick":
-            # the other spellings of a kind name that FROM accepts
-            names = sorted(set(names) | {k for k, v in tables["envCases"] if any(cases.get(c) == v for c in cnt)})
+        # (only the names the scanner produces: the binder also accepts second spellings — comparison_expression,
+        #  and_bitwise_expression, … — which no entity carries; a FROM item spelled that way selects nothing, alone or in a
+        #  pair, and C19 is about the produced kinds)
         canon_of = lambda k: next((c for c in cnt if c == k), None) or next((c for c in cnt if cases.get(c) == cases.get(k)), None)
         pair_bad = npairs = 0
         for k1 in names:
